@@ -60,13 +60,14 @@ const (
 
 // context modes
 const (
-	ctxNone     = ""          // no WithContext option
-	ctxIdle     = "idle"      // WithContext(cancellable) that is never cancelled during the call
-	ctxPre      = "pre"       // cancelled before the call
-	ctxAt       = "at"        // cancelled by the user function reaching CtxPos, inline (strictly before it continues)
-	ctxAtAsync  = "at-async"  // as ctxAt, but by a helper goroutine racing the user function's next step
-	ctxDeadline = "deadline"  // context.WithTimeout of a few hundred microseconds (real timer; either outcome is legal)
-	ctxViaTimer = "via-timer" // only with kOutlive: the outliver waits for a real, tiny deadline instead of cancelling
+	ctxNone     = ""             // no WithContext option
+	ctxIdle     = "idle"         // WithContext(cancellable) that is never cancelled during the call
+	ctxPre      = "pre"          // cancelled before the call
+	ctxPreDL    = "pre-deadline" // context.WithDeadline whose deadline had already passed when it was created, before the call
+	ctxAt       = "at"           // cancelled by the user function reaching CtxPos, inline (strictly before it continues)
+	ctxAtAsync  = "at-async"     // as ctxAt, but by a helper goroutine racing the user function's next step
+	ctxDeadline = "deadline"     // context.WithTimeout of a few hundred microseconds (real timer; either outcome is legal)
+	ctxViaTimer = "via-timer"    // only with kOutlive: the outliver waits for a real, tiny deadline instead of cancelling
 )
 
 // idxEnd as Index: generator: after the last item; reducer: after the pipe was closed.
@@ -119,6 +120,9 @@ func (p plan) effWorkers() int {
 func (p plan) hasReducer() bool { return p.API == apiMR || p.API == apiChan || p.API == apiVoid }
 func (p plan) hasCancel() bool  { return p.hasReducer() }
 func (p plan) ctxEnds() bool    { return p.Ctx != ctxNone && p.Ctx != ctxIdle || p.Kind == kOutlive }
+
+// ctxBeforeCall: the context has ended, by plan, before the call is made.
+func (p plan) ctxBeforeCall() bool { return p.Ctx == ctxPre || p.Ctx == ctxPreDL }
 
 // clean: nothing is cancelled, nothing panics, the context does not end.
 func (p plan) clean() bool {
